@@ -60,8 +60,17 @@ def f2_program():
     return base, ("un", o, (("it", 0), True, False, False), base), ("un", o, mp.DEFAULT, base)
 
 
+def f14_program():
+    """The listed known finding (F14), every run: a nested compound select, which SQLite rejects."""
+    k1 = enc.K(1)
+    lf = [("leaf", i, ("sql", 0), [k1], [{k1: i}], (0, None)) for i in (1, 2, 3)]
+    base = ("chain", ("chain", lf[0], lf[1]), lf[2])
+    o = ("sel", ("cmp", "ge", ("ref", k1), ("lit", 2)))
+    return base, ("un", o, (("sql", 0), True, False, False), base), ("un", o, mp.DEFAULT, base)
+
+
 def make_programs(rng, n):
-    out = [f2_program()]
+    out = [f2_program(), f14_program()]
     for _ in range(n):
         counter = [0]
         if rng.random() < 0.7:
